@@ -382,6 +382,8 @@ def failure_key(verdict):
     """Key of an implementation failure: panic site (file:function#ordinal), signal, timeout."""
     first = verdict.split(" ")[0]
     if first.startswith("crash:") and "stack overflow" in verdict: return "impl-failure:stack-overflow"
+    if first.startswith("crash:") and "Linking globals named" in verdict and "symbol multiply defined" in verdict:
+        return "impl-failure:llvm-link:symbol-multiply-defined"      # LLVM's linker prints this and ends the process
     if first.startswith("internal-error:"): return "impl-failure:" + first[:70]
     m = re.match(r"panic@(.*):(\d+)$", first)
     if m: return "impl-failure:panic@" + panic_site(m.group(1), int(m.group(2)))
